@@ -21,7 +21,9 @@ from ..worker import Worker, outcome
 PID = "C11"
 
 BROKEN = ["ZZ% = ", "ZZ% = (1 + ", "PRINT (", "ZZ% = 1 +", "ZZ% 5", "ZZ% = )", "GOTO", "FOR = 1 TO 2", "ZZ%( = 1", "= 5", "ZZ% = 1 1",
-          "DIM", "ZZ% = 1 AND", "CONST = 3", "PRINT #", "ZZ$ = \"a\" + ", "NEXT 5", "ZZ% = 2 * * 3", "SELECT 5", "INPUT ,"]
+          "DIM", "ZZ% = 1 AND", "CONST = 3", "PRINT #", "ZZ$ = \"a\" + ", "NEXT 5", "ZZ% = 2 * * 3", "SELECT 5", "INPUT ,",
+          # string literals without their closing quote: the fault is on this line, wherever on it the parser notices
+          "PRINT \"abc", "ZZ$ = \"", "PRINT \"a\"; \"b c", "ZZ$ = \"x\" + \"y"]
 
 
 def block_lists(stmts, depth=0, out=None):
@@ -367,6 +369,8 @@ def run_case(w, rng, r):
     while j < len(new_line) and new_line[j] in " \t":
         j += 1
     hi = j + 1
+    if broken.count('"') % 2 == 1:
+        hi = len(new_line) + 1
     rep = w.run(new_src, stop="parse")
     oc = outcome(rep)
     if oc[0] in ("watchdog", "harness_error", "died"):
